@@ -298,6 +298,7 @@ func run(id string, cfg config, tier string, seed int64, work string, replayPath
 
 	if cfg.StmtProbe {
 		// C20: the -cover probe is needed by the search and by every replay of a statement-count case
+		os.Setenv("VERIF_TIER_NAME", tier)
 		stmts, probe, err := runStmtProbe(work, replayPath == "")
 		if err != nil {
 			fmt.Fprintf(os.Stderr, "INCONCLUSIVE: statement-count probe: %v\n", err)
